@@ -2527,6 +2527,9 @@ class UserActions(object):
     section = self._docmodel.view_sections.table.get_record(section_ref)
     if not section.tableRef.summarySourceTable:
       raise ValueError("Can't detach a non-summary section")
+    if section.isRaw:
+      # The raw section belongs to its summary table; moving it would leave that table without one.
+      raise ValueError("Cannot modify raw view section")
     self._summary.detach_summary_section(section)
 
 
